@@ -103,7 +103,9 @@ def jws_entries(path):
     if path in ("compact", "7797-compact"):
         return [("jws.deserialize_compact", lambda t, k, a: jws.deserialize_compact(t, k, algorithms=a)),
                 ("rfc7797.deserialize_compact", lambda t, k, a: rfc7797.deserialize_compact(t, k, algorithms=a)),
-                ("jwt.decode", lambda t, k, a: jwt.decode(t, k, algorithms=a))]
+                ("jwt.decode", lambda t, k, a: jwt.decode(t, k, algorithms=a)),
+                # an application that keeps its content elsewhere passes it with every token, whatever the token turns out to be
+                ("rfc7797.deserialize_compact(payload=)", lambda t, k, a: rfc7797.deserialize_compact(t, k, payload=b"hello-World_7", algorithms=a))]
     return [("jws.deserialize_json", lambda t, k, a: jws.deserialize_json(t, k, algorithms=a)),
             ("rfc7797.deserialize_json", lambda t, k, a: rfc7797.deserialize_json(t, k, algorithms=a))]
 
@@ -136,9 +138,18 @@ def h_jws_header(ctx):
     else:
         name = ctx.choose("member", HEADER_NAMES)
         v = ctx.choose("value", ["<deleted>"] + values())
-        pos = ctx.choose("position", ["protected"] + (["unprotected"] if path in ("flattened", "general", "7797-flattened") else []))
+        pos = ctx.choose("position", ["protected"] + (["unprotected", "unprotected, the signature has no protected header"] if path in ("flattened", "general", "7797-flattened") else []))
         prot, hdr = dict(base), None
-        if pos == "protected":
+        if pos.endswith("no protected header"):
+            hdr = dict(base)
+            if v == "<deleted>":
+                if name not in hdr:
+                    return Outcome("noop", [], nontrivial=None)
+                hdr.pop(name)
+            else:
+                hdr[name] = v
+            prot = None
+        elif pos == "protected":
             if v == "<deleted>":
                 if name not in prot:
                     return Outcome("noop", [], nontrivial=None)
@@ -376,10 +387,13 @@ def h_segments(ctx):
     vs, bs = [], []
     if family.startswith("jws"):
         eps = jws_entries("compact")
-        for ename, ep in eps:
-            b, v1 = judge(ename, call(ep, tok, key, [alg]), what, cls)
-            bs.append(b)
-            vs += v1
+        # the token as text and as the octets that came off the wire
+        forms = [("", tok)] + ([(" [token as bytes]", tok.encode("utf-8")), (" [token as bytearray]", bytearray(tok.encode("utf-8")))] if isinstance(tok, str) and mode in ("none", "segment", "count") else [])
+        for suffix, tval in forms:
+            for ename, ep in eps:
+                b, v1 = judge(ename, call(ep, tval, key, [alg]), what + suffix, cls + suffix)
+                bs.append(b)
+                vs += v1
     else:
         for ename, ep in jwe_entries("compact", sender is not None):
             b, v1 = judge(ename, call(ep, tok, key, scen.JWE_ALL, sender), what, cls)
